@@ -142,7 +142,7 @@ Definition dec_v1 (sh : N) (bs : list N) : option tabs :=
     if has (24 + 8 * cnt) bs
     then Some (mkAbs (hashes cnt 24 bs) theta sh true (Nat.eqb cnt 0 && (theta =? S_MAX_THETA))) else None.
 
-Definition dec_spec (sh : N) (bs : list N) : option tabs :=
+Definition dec_spec_body (sh : N) (bs : list N) : option tabs :=
   if negb (has 8 bs) then None
   else if negb (nth 2 bs 0 =? S_FAMILY_THETA) then None
   else
@@ -152,6 +152,11 @@ Definition dec_spec (sh : N) (bs : list N) : option tabs :=
     else if ver =? 2 then dec_v2 bs
     else if ver =? 1 then dec_v1 sh bs
     else None.
+
+(* the preamble-longs byte of a theta image is 1, 2 or 3 in every serial version *)
+Definition dec_spec (sh : N) (bs : list N) : option tabs :=
+  let pre := nth 0 bs 0 in
+  if (1 <=? pre) && (pre <=? 3) then dec_spec_body sh bs else None.
 
 (* ---------- writing: every variant a foreign writer uses ---------- *)
 Inductive variant :=
